@@ -1247,9 +1247,9 @@ func runC17(c *Ctx) int {
 	sort.Strings(outl)
 	samples = append(samples, fmt.Sprintf("lock sequences such as %v, %v; blocking scenarios %v", seqs[len(seqs)/3], seqs[len(seqs)-1], blocking))
 	cov := map[string]any{
-		"evaluations":         lockSeqs + blk + files2,
-		"distinct_nontrivial": len(outcomes) + len(fps),
-		"rule": fmt.Sprintf("part A: every legal sequence of length <= %d over {open read-write / read-only in a separate process / in the same process (Timeout 150 ms), close oldest / newest holder} (quick adds a seeded sample of lengths 4 and 5), each on a fresh file and followed by 'all closed => read-write open succeeds'; the lock model (writer xor readers) decides acquired vs ErrTimeout for every open; 6 blocking scenarios (open without timeout while a conflicting holder holds: must not return before the holder closes, must acquire afterwards). Distinct = distinct (event, holders held, outcome class). parts B-D on files of generated histories (4 page sizes, both backends, freelist persisted or not): 5 read-only option combinations x {Begin(true)/Update/Batch and every Tx/Bucket/Cursor mutator must be refused with the documented error, dump == model, Tx.Check, Page, WriteTo/CopyFile/Compact elsewhere, Sync/Stats/Info, a second read-only handle}; file SHA-256 + length + mtime before/after each step and zero write/truncate events at the I/O hook; CLI check, pages, page, page --all, dump, buckets, stats, inspect, info, keys, get with identity comparison (and under strace: database opened O_RDONLY only, no write-type syscall on its descriptors, no PROT_WRITE mapping); one byte of up to 400 key/value/name slices per handle flipped under SetPanicOnFault: fault or private copy, afterwards a fresh transaction must equal the model and the file identity must be unchanged.", exhaustiveUpTo),
+		"evaluations":                     lockSeqs + blk + files2,
+		"distinct_nontrivial":             len(outcomes) + len(fps),
+		"rule":                            fmt.Sprintf("part A: every legal sequence of length <= %d over {open read-write / read-only in a separate process / in the same process (Timeout 150 ms), close oldest / newest holder} (quick adds a seeded sample of lengths 4 and 5), each on a fresh file and followed by 'all closed => read-write open succeeds'; the lock model (writer xor readers) decides acquired vs ErrTimeout for every open; 6 blocking scenarios (open without timeout while a conflicting holder holds: must not return before the holder closes, must acquire afterwards). Distinct = distinct (event, holders held, outcome class). parts B-D on files of generated histories (4 page sizes, both backends, freelist persisted or not): 5 read-only option combinations x {Begin(true)/Update/Batch and every Tx/Bucket/Cursor mutator must be refused with the documented error, dump == model, Tx.Check, Page, WriteTo/CopyFile/Compact elsewhere, Sync/Stats/Info, a second read-only handle}; file SHA-256 + length + mtime before/after each step and zero write/truncate events at the I/O hook; CLI check, pages, page, page --all, dump, buckets, stats, inspect, info, keys, get with identity comparison (and under strace: database opened O_RDONLY only, no write-type syscall on its descriptors, no PROT_WRITE mapping); one byte of up to 400 key/value/name slices per handle flipped under SetPanicOnFault: fault or private copy, afterwards a fresh transaction must equal the model and the file identity must be unchanged.", exhaustiveUpTo),
 		"samples":                         samples,
 		"lock_sequences":                  lockSeqs,
 		"lock_sequences_exhaustive_up_to": exhaustiveUpTo,
